@@ -523,3 +523,11 @@ package message
 //@   let P0 = old(rdTotal) - old(viewLen(m))
 //@   loop 1 invariant inv: msgInv(m)
 //@   loop 1 invariant progress: [C13] 0 <= i && (m.finished && viewLen(m) == 0 ==> i <= (rdTotal - viewLen(m)) - P0 + 1) && (!(m.finished && viewLen(m) == 0) ==> i <= (rdTotal - viewLen(m)) - P0)
+
+//@ func isTypeName (s) (result)
+//@   props C13 C08
+//@   assigns nothing
+
+//@ func typeNameError (s) (result)
+//@   props C13 C08
+//@   assigns nothing
